@@ -88,6 +88,9 @@ U_C02_Pos(zz) ==
     \cup {VDecl([C0 |-> Class(DefaultOpts, <<U1("t"), RepUntilF("r", U1("e"), u, NoCond, al), U1("z")>>)], "full", 0, FALSE) :
              u \in UntilInt, al \in {2, 3}}
     \cup {VDecl([C0 |-> Class(DefaultOpts, <<U1("n"), RepCountF("r", IntF("e", 3, FALSE, "default"), SzField("n"), NoCond, 2), U1("z")>>)], "full", 0, FALSE)}
+    \* the count is a described field given explicitly: the re-parse reads it from the bytes
+    \cup {VDecl([C0 |-> Class(DefaultOpts, <<WithDesc(U1("n"), [kind |-> "autolen", of |-> "r"]), RepCountF("r", U1("e"), SzField("n"), NoCond, 0), U1("z")>>)],
+                "full", 0, FALSE)}
 
 \* pack side of C03 (every-change subset): fixed runs, a descriptor on a vectorised field, nested packets
 U_C03V(zz) == {V1(<<IntF("a", n, sg, e), IntF("b", 2, FALSE, "little"), DataF("d", SzConst(2)), U1("z")>>, "full", FALSE) :
@@ -129,6 +132,11 @@ U_C20(zz) == {EqDecl([C0 |-> Class(DefaultOpts, Embedded("p", "C1", <<[n |-> "x"
           EqDecl([C0 |-> Class(DefaultOpts, <<WithDesc(U1("n"), [kind |-> "autolen", of |-> "d"]), DataF("d", SzField("n")), U1("z")>>)]),
           EqDecl([C0 |-> Class(DefaultOpts, <<U1("t"), RefF("s", "C1"), RepCountF("r", RefF("e", "C1"), SzField("t"), NoCond, 0),
                                               OptF("o", U1("e"), SzField("t"))>>), C1 |-> Sub1]),
+          \* optional SIZED values (present on one side, absent on the other); an embedded class with a described field
+          EqDecl([C0 |-> Class(DefaultOpts, <<U1("t"), OptF("o", DataF("e", SzConst(1)), SzField("t")),
+                                              RepCountF("q", DataF("e", SzConst(1)), SzConst(1), SzField("t"), 0)>>)]),
+          EqDecl([C0 |-> Class(DefaultOpts, Embedded("l", "C1", <<>>, <<WithDesc(U1("n"), [kind |-> "autolen", of |-> "d"]), DataF("d", SzField("n"))>>) \o <<U1("z")>>),
+                  C1 |-> Class(DefaultOpts, <<WithDesc(U1("n"), [kind |-> "autolen", of |-> "d"]), DataF("d", SzField("n"))>>)]),
           EqDecl([C0 |-> Class(DefaultOpts, <<U1("t"), RefSelF("v", EF("t"), <<[key |-> 0, alt |-> IntF("", 1, FALSE, "default")],
                                                                                [key |-> 1, alt |-> RefF("", "C1")]>>, "lambda", IntV(0)),
                                               MvField(EmF("tail"), [kind |-> "aligned", arg |-> SzConst(4), ref |-> "innermost-pkt"])>>), C1 |-> Sub1])}
